@@ -227,7 +227,7 @@ C07 entry. -/
 theorem spec_departure_clauses_pass_on_model (cfg : Cfg) (ok : CfgOK cfg) (hfuel : cfg.fuel = 0) (hperm : OrdPerm cfg)
     (hmt : cfg.mtClosed ≠ cfg.allTypes) (rs : List Round) (hwf : RoundsWF rs) :
     (Spec.runSpec cfg rs (Pyrtma.Drv.Manager.modelRun cfg rs).1 none).errs.filter (·.1 == "C07") = [] :=
-  spec_passes_on_model ok hfuel hperm hmt rs hwf "C07" (by simp [proven]) (fun h => absurd h (by decide))
+  spec_passes_on_model ok hfuel hperm hmt rs hwf "C07" (by simp [provenCore]) (fun h => absurd h (by decide))
 
 /-! ### Non-vacuity -/
 /-- connection 2 listens to CLIENT_CLOSED; connection 1 resets: exactly one notice about 1 reaches 2 -/
